@@ -248,6 +248,11 @@ pub fn gen(rng: &mut Rng, thorough: bool, sink: &mut Sink) {
     svc: vec![(su(1, 11), 1), (su(2, 11), 2), (su(11, 12), 3)], aka: vec![1, 100, 2], props: 2 });
   shapes.push(D { id: 3, ctrl: vec![3], vm: vec![M { u: su(3, 1), c: 3, x: 1 }], rels: [vec![E::Embed(M { u: su(3, 2), c: 3, x: 2 })], vec![E::Embed(M { u: su(4, 2), c: 4, x: 3 })], vec![], vec![], vec![]], svc: vec![(su(3, 3), 1), (su(4, 3), 2)], aka: vec![3], props: 1 });
   shapes.push(D { id: 1, vm: vec![M { u: su(1, 1), c: 1, x: 1 }], rels: [vec![E::Embed(M { u: su(2, 1), c: 2, x: 2 })], vec![], vec![], vec![], vec![]], svc: vec![(su(5, 1), 1)], ..Default::default() });
+  // ONE collection colliding at a time when unpacked for the partner DID (2): services only, general methods only, one relationship only
+  shapes.push(D { id: 1, svc: vec![(su(1, 11), 1), (su(2, 11), 2)], ..Default::default() });
+  shapes.push(D { id: 1, vm: vec![M { u: su(1, 1), c: 1, x: 1 }], svc: vec![(su(2, 11), 2), (su(5, 11), 3), (su(1, 11), 1)], ..Default::default() });
+  shapes.push(D { id: 1, rels: [vec![], vec![E::Embed(M { u: su(1, 5), c: 1, x: 4 }), E::Embed(M { u: su(2, 5), c: 2, x: 5 })], vec![], vec![], vec![]], ..Default::default() });
+  shapes.push(D { id: 1, rels: [vec![], vec![], vec![], vec![], vec![E::Refer(su(1, 9)), E::Refer(su(2, 9))]], ..Default::default() });
   for d in &shapes { for tgt in [1i64, 2, 3, 4, 5] { if let Some(c) = case1(tgt, d, &m0) { sink.case(c, "shape"); } } }
   let n = if thorough { 4000 } else { 500 };
   for i in 0..n {
